@@ -274,6 +274,8 @@ def replay(b: dict) -> dict:
 
 def main(tier: str) -> int:
     if core.replay_arg():
+        if json.loads(open(core.replay_arg()).read())["stimulus"].get("big"):
+            return core.replay_file(core.replay_arg(), PROP, "c03b", "Elementwise_Big_Trace")
         return core.replay_file(core.replay_arg(), PROP, "c03", "Elementwise_Trace")
     out = Outcome(PROP, tier)
     jobs = []
@@ -300,6 +302,14 @@ def main(tier: str) -> int:
     out.notes["calls_per_op_rhs"] = {f"{k[0]}/{k[1]}": n for k, n in sorted(Counter(
         (b["ev"][0]["op"], b["ev"][0]["args"]["rhs"]["kind"]) for b in behaviours).items())}
     out.notes["plan"] = [[list(p[0]), p[2], p[3], p[4]] for p in plan(tier)]
+    # operands with more than 2048 stored entries (Elementwise_Big): values position by position
+    ops_big = ["add", "mul", "eq", "le", "and", "xor"] if tier == "quick" else ["add", "sub", "mul", "eq", "ne", "lt", "le", "gt", "ge", "and", "or", "xor"]
+    rbig = tla.run_tlc("Elementwise_Big_Gen", "SPECIFICATION Spec\nCONSTANTS\n NCells = 2496\n OpsC = {%s}\n" % ", ".join(f'"{o}"' for o in ops_big),
+                       timeout=3000)
+    out.add_tlc(rbig)
+    out.notes["large_operand_calls"] = len(rbig.json)
+    core.pipeline(out, "c03b", rbig.json, "Elementwise_Big_Trace", lock_mode="superset", chunk=6,
+                  site_of=lambda tr, k: f"sptensor.{tr['ev'][k - 1]['args']['op']}({tr['ev'][k - 1]['args']['rk']}) [large]")
     core.pipeline(out, "c03", groups, "Elementwise_Trace", lock_mode="superset", chunk=300,
                   site_of=lambda tr, k: site_of(tr["ev"][k - 1]), tags_of=tags_of)
     out.rule = ("every call of Elementwise_Gen: for each shape ALL pairs of sparsity patterns of the two "
